@@ -49,9 +49,9 @@ list_update = {
     "name": "list_couponUpdate", "file": CL, "members": MEMBERS,
     "match": r"HllSketchImpl<A>\* CouponList<A>::couponUpdate\(uint32_t coupon\)",
     "sig": "void* list_couponUpdate(struct couponlist* self, uint32_t coupon)", "throw_rv": "0", "nloops": 1,
-    "pre_rules": [(r"coupons_\.size\(\)", "coupons_size", 2), (r"return this;", "return self;", 2),
+    "pre_rules": [(r"coupons_\.size\(\)", "coupons_size", "any"), (r"return this;", "return self;", "any"),
                   (r"promoteHeapListOrSetToHll\(\*this\)", "promote_to_hll(self)", 1), (r"promoteHeapListToSet\(\*this\)", "promote_to_set(self)", 1)],
-    "rules": [(r"(?<![\w>])coupons_size", "self->coupons_size", 2), HURULE],
+    "rules": [(r"(?<![\w>])coupons_size", "self->coupons_size", "any"), HURULE],
     "inserts": [(r"self->coupons_\[i\] = coupon;", "g_w = i; g_written = 1;", "after", 1),
                 (r"return self;(?=\s*\}\s*\})", "g_w = i;", "before", 1)],
     "contract": r"""
@@ -101,7 +101,7 @@ grow = {
     "name": "growHashSet", "file": F, "members": CH_MEMBERS,
     "match": r"void CouponHashSet<A>::growHashSet\(uint8_t tgtLgCoupArrSize\)", "sig": "void growHashSet(struct couponlist* self, uint8_t tgtLgCoupArrSize)", "nloops": 1,
     "pre_rules": [(r"vector_int coupons_new\(tgtLen, 0, this->coupons_\.get_allocator\(\)\);", "uint32_t* coupons_new = (uint32_t*)calloc(tgtLen, sizeof(uint32_t)); __CPROVER_assume(coupons_new != NULL); g_grow_lg = tgtLgCoupArrSize;", 1),
-                  (r"this->coupons_\.size\(\)", "this->coupons_size", 1), (r"coupons_new\.data\(\)", "coupons_new", 1), (r"find<A>\(", "coupon_set_find(", 1),
+                  (r"this->coupons_\.size\(\)", "this->coupons_size", "any"), (r"coupons_new\.data\(\)", "coupons_new", 1), (r"find<A>\(", "coupon_set_find(", 1),
                   (r"this->coupons_ = std::move\(coupons_new\);", "this->coupons_ = coupons_new; this->coupons_size = tgtLen;", 1)],
     "propagate": ["coupon_set_find"],
     "inserts": [(r"coupons_new\[~idx\] = fetched;", "if (i == g_s) g_nw = (size_t)(uint32_t)~idx;", "after", 1)],
@@ -126,7 +126,7 @@ __CPROVER_decreases(srcLen - i)
 check_grow = {
     "name": "checkGrowOrPromote", "file": F, "members": CH_MEMBERS,
     "match": r"bool CouponHashSet<A>::checkGrowOrPromote\(\)", "sig": "bool checkGrowOrPromote(struct couponlist* self)", "throw_rv": "0", "nloops": 0,
-    "pre_rules": [(r"this->coupons_\.size\(\)", "this->coupons_size", 2)],
+    "pre_rules": [(r"this->coupons_\.size\(\)", "this->coupons_size", "any")],
     "methods": ["growHashSet"], "propagate": ["growHashSet"],
     "contract": r"""
 __CPROVER_requires(__CPROVER_rw_ok(self, sizeof(*self)) && SETINV(self) && __CPROVER_rw_ok(self->coupons_, self->coupons_size * sizeof(uint32_t)) && verif_exc == 0 && g_grow_lg == 0)
@@ -145,8 +145,8 @@ set_update = {
     "name": "set_couponUpdate", "file": F, "members": CH_MEMBERS,
     "match": r"HllSketchImpl<A>\* CouponHashSet<A>::couponUpdate\(uint32_t coupon\)",
     "sig": "void* set_couponUpdate(struct couponlist* self, uint32_t coupon)", "throw_rv": "0", "nloops": 0,
-    "pre_rules": [(r"this->coupons_\.size\(\)", "this->coupons_size", 1), (r"this->coupons_\.data\(\)", "this->coupons_", 1), (r"find<A>\(", "coupon_set_find(", 1),
-                  (r"return this;", "return self;", 2), (r"this->promoteHeapListOrSetToHll\(\*this\)", "promote_to_hll(self)", 1)],
+    "pre_rules": [(r"this->coupons_\.size\(\)", "this->coupons_size", "any"), (r"this->coupons_\.data\(\)", "this->coupons_", "any"), (r"find<A>\(", "coupon_set_find(", 1),
+                  (r"return this;", "return self;", "any"), (r"this->promoteHeapListOrSetToHll\(\*this\)", "promote_to_hll(self)", 1)],
     "methods": ["checkGrowOrPromote"], "propagate": ["coupon_set_find"],   # an exception out of checkGrowOrPromote (inside the if condition) leaves through the return statements that follow with the flag set
     "inserts": [(r"\+\+self->couponCount_;", "g_written = 1; g_w = (size_t)(uint32_t)~index; g_present = self->coupons_[g_w] == coupon; g_slot_after = self->coupons_[g_i]; g_count_after = self->couponCount_; g_checked = 1; g_c = self->coupons_[g_s];", "after", 1)],
     "contract": r"""
